@@ -20,8 +20,7 @@ from runner import Result
 
 LEAN_FILES = ['PyIkev2/Model/Netlink.lean', 'PyIkev2/Spec/Uapi.lean', 'PyIkev2/Proofs/Netlink.lean']
 ASSUMPTIONS = ['x86-64 little-endian host, natural alignment (the ctypes algorithm modelled in Impl.flattenStruct is compared '
-               'with ctypes itself for every structure on every run)',
-               'kernel attribute order in ACQUIRE: XFRMA_TMPL first (the parser walks TLVs without NLA_ALIGN)']
+               'with ctypes itself for every structure on every run)']
 SEQ, PID = 1700000000, 4242
 
 
